@@ -36,7 +36,12 @@ type Prog struct {
 
 	cgOnce sync.Once
 	cg     *callgraph.Graph
+
+	InlineLog []string // new helper functions inlined into their callers before the analysis (see inline.go)
 }
+
+// BaselineFuncs is the path of the list of functions the rules were written against ("" = no inlining pre-pass).
+var BaselineFuncs string
 
 // Load type-checks ./... under dir. Any type error is returned as an error:
 // an analysis of a program that does not type-check decides nothing.
@@ -51,7 +56,17 @@ func Load(dir string, needDeps bool) (*Prog, error) {
 		env = append(env, e)
 	}
 	env = append(env, "GOWORK=off")
-	cfg := &packages.Config{Mode: mode, Dir: dir, Env: env, Tests: false}
+	var overlay map[string][]byte
+	var inlineLog []string
+	if BaselineFuncs != "" {
+		var ierr error
+		overlay, inlineLog, ierr = InlineNewHelpers(dir, BaselineFuncs, env)
+		if ierr != nil {
+			inlineLog = append(inlineLog, "inline pre-pass failed: "+ierr.Error())
+			overlay = nil
+		}
+	}
+	cfg := &packages.Config{Mode: mode, Dir: dir, Env: env, Tests: false, Overlay: overlay}
 	initial, err := packages.Load(cfg, "./...")
 	if err != nil {
 		return nil, fmt.Errorf("packages.Load: %v", err)
@@ -59,7 +74,7 @@ func Load(dir string, needDeps bool) (*Prog, error) {
 	if len(initial) == 0 {
 		return nil, fmt.Errorf("no packages loaded from %s", dir)
 	}
-	p := &Prog{Dir: dir, ByPth: map[string]*packages.Package{}, All: map[string]*packages.Package{}}
+	p := &Prog{Dir: dir, ByPth: map[string]*packages.Package{}, All: map[string]*packages.Package{}, InlineLog: inlineLog}
 	var errs []string
 	packages.Visit(initial, nil, func(pk *packages.Package) {
 		p.All[pk.PkgPath] = pk
